@@ -122,6 +122,24 @@ def build_harness(variant="A", sanitize="address", extra_cflags=(), exe_sources=
     return exe, "built"
 
 
+def build_tpdrv(sanitize="address"):
+    """harness/tp_drv.c (#includes /repo's mtbl/threadpool.c with pthread_* routed to the deterministic scheduler)"""
+    cfgdir = config_h_dir()
+    outdir = os.path.join(BUILD, "sched"); os.makedirs(outdir, exist_ok=True)
+    exe = os.path.join(outdir, "tpdrv"); stamp = exe + ".stamp"
+    want = tree_hash("tpdrv|" + str(sanitize))
+    if os.path.exists(stamp) and os.path.exists(exe) and open(stamp).read() == want:
+        return exe, "cached"
+    cmd = ["gcc", "-g", "-O1", "-fno-omit-frame-pointer", "-include", os.path.join(cfgdir, "config.h"), "-I" + REPO, "-I" + os.path.join(REPO, "mtbl"),
+           "-I" + HARNESS] + (["-fsanitize=" + sanitize] if sanitize else []) + ["-o", exe, os.path.join(HARNESS, "tp_drv.c"), "-lpthread"]
+    r = sh(cmd)
+    if r.returncode != 0:
+        return None, r.stdout
+    with open(stamp, "w") as f:
+        f.write(want)
+    return exe, "built"
+
+
 # ---------------------------------------------------------------------------------------------
 # Lean side
 
@@ -218,7 +236,9 @@ class Proc:
         rc = self.p.wait()
         err = self.p.stderr.read()
         self.stderr = err
-        if rc == 99 or "AddressSanitizer" in err or "runtime error:" in err:
+        if rc == 66 or "ThreadSanitizer" in err:
+            self.dead = "tsan"
+        elif rc == 99 or "AddressSanitizer" in err or "runtime error:" in err:
             self.dead = "asan"
         elif rc == -6 or "Assertion" in err:
             self.dead = "abort"
@@ -320,7 +340,7 @@ def run_script(exe, lines, model_pre=(), tmpdir=None, real_env=None):
     return res
 
 
-REAL_ONLY = {"sys.info", "codec.sweep32", "crc.cpu", "cz.raw", "cz.direct", "cz.libinfo", "cz.gen", "cz.big"}
+REAL_ONLY = {"sys.info", "codec.sweep32", "crc.cpu", "cz.raw", "cz.direct", "cz.libinfo", "cz.gen", "cz.big", "mt.run"}
 MODEL_ONLY = {"enc.raw", "enc.legal", "enc.file", "ctab", "cz.plan", "f.validate"}
 
 
